@@ -430,13 +430,15 @@ def run(ctx):
     n3 += _qp.check_conditions(ctx, 'c14cn', 5000 if thorough else 1800)
     n3 += _qp.check_assignments(ctx, 'c14let', 4000 if thorough else 1500)
     n3 += _qp.check_calls(ctx, 'c14call', 3000 if thorough else 1000)
+    from .. import fullparse as _fp
+    n3 += _fp.check_files(ctx, 'c14file', 4000 if thorough else 900)
     ctx.coverage['distinct_nontrivial'] = n1 + n2 + n3
     ctx.coverage['rule'] = ('generated programs printed under %d single-dimension spellings (exhaustive per token class) and random combinations; AST equality (locations removed) with the '
                             'default spelling; .n / [n] / leading this. / type block vs filter block / default rule compared on verdicts; random strings over an alphabet with both quote '
                             'characters, backslash, #, non-ASCII in both quote styles' % len(SINGLE))
     ctx.coverage['trusted_base'] = [
         'Coq 8.16.1 kernel (coqc), vm_compute; no axioms',
-        'Lex.v, ValueParse.v, QueryParse.v, OpParse.v, ClauseParse.v, CnfParse.v, FilterParse.v, ClauseFParse.v, CnfFParse.v, LetParse.v, CallParse.v (modelled, not verified; tied by the hooks parse_value_dump / parse_access_dump / parse_cmp_dump / parse_clause_dump / parse_conditions_dump / parse_let_dump: value / query / operator / clause / conditions, stop offset, nom error class) + translator tools/gv/tables.py for the keyword tables; hooks ast_dump / lit_dump',
+        'Lex.v, ValueParse.v, QueryParse.v, OpParse.v, ClauseParse.v, CnfParse.v, FilterParse.v, ClauseFParse.v, CnfFParse.v, LetParse.v, CallParse.v, FullParse.v (modelled, not verified; tied by the hooks parse_value_dump / parse_access_dump / parse_cmp_dump / parse_clause_dump / parse_conditions_dump / parse_let_dump: value / query / operator / clause / conditions, stop offset, nom error class) + translator tools/gv/tables.py for the keyword tables; hooks ast_dump / lit_dump',
         'the pretty-printer of tools/gv/gen.py (a spelling the printer cannot produce is not exercised)',
     ]
     ctx.assumptions = ['the type-block equivalence is compared on templates whose Resources is a non-empty map of maps (otherwise the type block raises an error where the filter block FAILs: recorded in DESIGN.md)']
